@@ -297,7 +297,7 @@ where
                         }
 
                         let index = self.index;
-                        self.index += 1;
+                        self.index = self.index.wrapping_add(1); // the last msg can have index MAX
                         let ecu = self.get_ecu(*can_id, &None);
 
                         return Some(DltMessage {
@@ -388,7 +388,7 @@ where
                         }
                         // return a DltMessage
                         let index = self.index;
-                        self.index += 1;
+                        self.index = self.index.wrapping_add(1); // the last msg can have index MAX
 
                         let ecu = self.get_ecu(*can_id, &None);
 
@@ -437,7 +437,7 @@ where
 
                         // return a DltMessage
                         let index = self.index;
-                        self.index += 1;
+                        self.index = self.index.wrapping_add(1); // the last msg can have index MAX
 
                         let ecu = self.get_ecu(*can_id, &None);
 
@@ -524,7 +524,7 @@ where
                                     );
                                     // return a DltMessage with the LOG INFO APID incl. the BusMapping name
                                     let index = self.index;
-                                    self.index += 1;
+                                    self.index = self.index.wrapping_add(1); // the last msg can have index MAX
                                     return Some(DltMessage {
                                         index,
                                         reception_time_us: self.date_us,
